@@ -36,6 +36,9 @@ pub struct History {
     /// concurrency. Whatever the system under test keeps per thread and per process now differ.
     #[serde(default)]
     pub threads: bool,
+    /// executed by the build with debug assertions on
+    #[serde(default)]
+    pub dbg: bool,
 }
 
 // ---------------------------------------------------------------------------------------------
@@ -1353,7 +1356,7 @@ pub fn run(run_seed: u64, findings: &[Finding]) -> RunOut {
         *stats.miss_kinds.entry(k).or_insert(0) += v;
     }
     let nontrivial = stale_uses > 0 && stats.writes_applied > 0;
-    RunOut { history: History { seed: run_seed, doc, ops, threads }, viol, stats, kf_seen: ex.kf_seen, nontrivial }
+    RunOut { history: History { seed: run_seed, doc, ops, threads, dbg: false }, viol, stats, kf_seen: ex.kf_seen, nontrivial }
 }
 
 // ---------------------------------------------------------------------------------------------
@@ -1444,7 +1447,7 @@ pub fn minimise(h: &History, class: &str) -> History {
             if out_of_time() {
                 break;
             }
-            let cand = History { seed: cur.seed, doc: cand_doc, ops: cur.ops.clone(), threads: cur.threads };
+            let cand = History { seed: cur.seed, doc: cand_doc, ops: cur.ops.clone(), threads: cur.threads, dbg: cur.dbg };
             if fails_same(&cand, class).is_some() {
                 cur = cand;
                 progress = true;
@@ -1502,6 +1505,9 @@ pub struct ChunkReq {
     /// stop after the first violation (used when replaying a prefix)
     #[serde(default)]
     pub stop_at_first: bool,
+    /// run by the build with debug assertions on (one chunk in four, if that build exists)
+    #[serde(default)]
+    pub dbg: bool,
 }
 
 #[derive(Serialize, Deserialize, Default)]
@@ -1549,7 +1555,9 @@ pub fn run_chunk(req: &ChunkReq, findings: &[Finding]) -> ChunkOut {
             out.n_viol += 1;
             *out.classes.entry(viol_label(&v)).or_insert(0) += 1;
             if out.first_viol.is_none() {
-                out.first_viol = Some((*i, r.history, v));
+                let mut h = r.history;
+                h.dbg = req.dbg;
+                out.first_viol = Some((*i, h, v));
             }
             if req.stop_at_first {
                 break;
@@ -1598,13 +1606,13 @@ pub fn exec_main() -> i32 {
 }
 
 fn spawn_chunk(req: &ChunkReq) -> Result<ChunkOut, String> {
-    let out = crate::c12::spawn_with_input(&["c09-chunk"], &serde_json::to_string(req).unwrap(), 3600)?;
+    let out = crate::c12::spawn_exe_with_input(req.dbg, &["c09-chunk"], &serde_json::to_string(req).unwrap(), 3600)?;
     crate::report::from_json(out.trim()).map_err(|e| format!("bad chunk output: {}", e))
 }
 
 /// Executes a history in a fresh process; returns its violation, if any.
 fn exec_fresh(h: &History) -> Result<(Option<Viol>, Vec<(String, Viol)>), String> {
-    let out = crate::c12::spawn_with_input(&["c09-exec"], &serde_json::to_string(h).unwrap(), 60)?;
+    let out = crate::c12::spawn_exe_with_input(h.dbg, &["c09-exec"], &serde_json::to_string(h).unwrap(), 60)?;
     let v: Value = crate::report::from_json(out.trim()).map_err(|e| format!("bad exec output: {}", e))?;
     let viol: Option<Viol> = serde_json::from_value(v["viol"].clone()).map_err(|e| e.to_string())?;
     let kf: Vec<(String, Viol)> = serde_json::from_value(v["kf"].clone()).unwrap_or_default();
@@ -1654,7 +1662,8 @@ pub fn drive(tier_name: &str, seed: u64, workers: usize) -> i32 {
     // after the other on one thread, so that whatever a run can observe is a function of (seed, chunk)
     let chunk = 5000u64;
     let n_chunks = (runs + chunk - 1) / chunk;
-    let reqs: Vec<ChunkReq> = (0..n_chunks).map(|ci| ChunkReq { seed, runs: ((ci * chunk)..((ci + 1) * chunk).min(runs)).collect(), stop_at_first: false }).collect();
+    let have_dbg = crate::c12::dbg_exe().is_some();
+    let reqs: Vec<ChunkReq> = (0..n_chunks).map(|ci| ChunkReq { seed, runs: ((ci * chunk)..((ci + 1) * chunk).min(runs)).collect(), stop_at_first: false, dbg: have_dbg && ci % 4 == 3 }).collect();
     let results = crate::c12::par_map(&reqs, workers, |r| spawn_chunk(r));
     let mut total = Stats::default();
     let mut shapes = BTreeSet::new();
@@ -1721,7 +1730,7 @@ pub fn drive(tier_name: &str, seed: u64, workers: usize) -> i32 {
             let fails = |runs: &Vec<u64>| -> bool {
                 let mut r = runs.clone();
                 r.push(*i);
-                spawn_chunk(&ChunkReq { seed, runs: r, stop_at_first: true }).ok().and_then(|o| o.first_viol).map(|(j, _, v2)| j == *i && v2.class == v.class).unwrap_or(false)
+                spawn_chunk(&ChunkReq { seed, runs: r, stop_at_first: true, dbg: h.dbg }).ok().and_then(|o| o.first_viol).map(|(j, _, v2)| j == *i && v2.class == v.class).unwrap_or(false)
             };
             let mut n = 2usize;
             let mut budget = 80;
@@ -1752,7 +1761,7 @@ pub fn drive(tier_name: &str, seed: u64, workers: usize) -> i32 {
             }
             let mut runs_list = prefix.clone();
             runs_list.push(*i);
-            let body = json!({"property": "C09", "kind": "c09-runs", "class": v.class, "violation": v, "seed": seed, "runs": runs_list, "failing_run": i, "failing_history": h,
+            let body = json!({"property": "C09", "kind": "c09-runs", "class": v.class, "violation": v, "seed": seed, "runs": runs_list, "failing_run": i, "failing_history": h, "dbg": h.dbg,
                 "note": "the failing history passes when it is the only work of a process: the violation depends on what ran before it in the same process; the replay executes the listed runs in order in one fresh process",
                 "how_to_replay": "./check C09 --replay <this file>"});
             let p = report::write_replay("C09", &format!("seed{}-run{}", seed, i), &body);
@@ -1815,7 +1824,7 @@ pub fn replay(body: &Value) -> i32 {
         let seed = body["seed"].as_u64().unwrap_or(1);
         let runs: Vec<u64> = serde_json::from_value(body["runs"].clone()).unwrap_or_default();
         let failing = body["failing_run"].as_u64().unwrap_or(0);
-        return match spawn_chunk(&ChunkReq { seed, runs, stop_at_first: true }) {
+        return match spawn_chunk(&ChunkReq { seed, runs, stop_at_first: true, dbg: body["dbg"].as_bool().unwrap_or(false) }) {
             Ok(o) => match o.first_viol {
                 Some((i, _, v)) => {
                     println!("replayed: run {} (recorded failing run {}) class={} path={} — {}", i, failing, v.class, v.path, v.detail);
